@@ -161,12 +161,42 @@ func c13Mutations(c *vCatalogue, m *vPos, sch vMappingSchema) []c13Mut {
 		}
 		n := k.EndLine - k.Line + 1
 		kk := k
-		out = append(out, c13Mut{kind: "remove", key: k.Value, src: c.DeleteKeys([]*vPos{k}), lineMap: func(l int) int {
+		lmRemove := func(l int) int {
 			if l > kk.EndLine {
 				return l - n
 			}
 			return l
-		}})
+		}
+		out = append(out, c13Mut{kind: "remove", key: k.Value, src: c.DeleteKeys([]*vPos{k}), lineMap: lmRemove})
+		// the mandatory key removed AND a key outside the set added after the last key: both are
+		// reported (neither diagnostic hides the other)
+		var extras []string
+		if sch.Closed {
+			extras = append(extras, "zzforeign: 1")
+		}
+		// keys of the other variant only where removing k cannot change the variant itself: an
+		// ordinary job (it keeps runs-on or steps) with with: / secrets: added
+		if own, other := c13Variants(m, sch); len(other) > 0 && m.NPath == "jobs.*" && len(own) == len(c13JobOrdinary) {
+			for _, o := range other {
+				if strings.HasPrefix(o, "uses:") {
+					continue
+				}
+				extras = append(extras, o)
+			}
+		}
+		for _, ex := range extras {
+			lines := append([]string{}, c.Lines[:m.EndLine]...)
+			lines = append(lines, ind+ex)
+			lines = append(lines, c.Lines[m.EndLine:]...)
+			lines = append(lines[:k.Line-1], lines[k.EndLine:]...)
+			exKey := strings.SplitN(ex, ":", 2)[0]
+			out = append(out, c13Mut{kind: "remove+extra", key: k.Value + "+" + exKey, src: strings.Join(lines, "\n"), expLine: m.EndLine + 1 - n, expCol: m.Indent, lineMap: func(l int) int {
+				if l > m.EndLine {
+					l++
+				}
+				return lmRemove(l)
+			}})
+		}
 	}
 	return out
 }
@@ -318,6 +348,23 @@ func c13Verdict(r *vReport, errs []*Error, rp map[string]any, npath string) {
 		if !found {
 			r.Violation("duplicate-key-not-reported:"+npath, fmt.Sprintf("%s: repeated key %q (%s) is not reported at the repetition %d:%d; diagnostics: %s", where, key, kind, expLine, expCol, vTrunc(fmt.Sprint(ds), 400)), rp)
 		}
+	case kind == "remove+extra":
+		parts := strings.SplitN(key, "+", 2)
+		foundMissing, foundExtra := false, false
+		for _, d := range ds {
+			if strings.Contains(strings.ToLower(d.Msg), strings.ToLower(parts[0])) && d.Line != expLine {
+				foundMissing = true
+			}
+			if d.Line == expLine && d.Kind == "syntax-check" {
+				foundExtra = true
+			}
+		}
+		if !foundMissing {
+			r.Violation("missing-key-hidden-by-extra-key:"+npath+"."+parts[0], fmt.Sprintf("%s: mandatory key %q removed and key %q added: no diagnostic about the missing key; diagnostics: %s", where, parts[0], parts[1], vTrunc(fmt.Sprint(ds), 400)), rp)
+		}
+		if !foundExtra {
+			r.Violation("extra-key-hidden-by-missing-key:"+npath+"."+parts[1], fmt.Sprintf("%s: mandatory key %q removed and key %q added at line %d: the added key is not reported; diagnostics: %s", where, parts[0], parts[1], expLine, vTrunc(fmt.Sprint(ds), 400)), rp)
+		}
 	case kind == "remove":
 		found := false
 		for _, d := range ds {
@@ -414,7 +461,7 @@ func TestVerifC13(t *testing.T) {
 						r.Sample(map[string]any{"seed": c.Seed, "mapping": m.Path, "schema_path": m.NPath, "mutation": mu.kind, "key": mu.key, "expected_at": []int{mu.expLine, mu.expCol}})
 					}
 				}
-				if mu.kind == "remove" {
+				if mu.kind == "remove" || mu.kind == "remove+extra" {
 					continue
 				}
 				for _, s := range sibs {
